@@ -293,6 +293,49 @@ def snapId (ids : List Int) (data : List P3) (p : P3) : Option (Int × Int) :=
 
 def snapTree (t : Tree) (p : P3) : Option (Int × Int) := snapId t.ids (t.nodes.map (·.pos)) p
 
+/-! ### `snap` with non-integer queries and the dtype the query is cast to
+
+`locs = np.asarray(locs).astype(<dtype>)` stands at the top of every `snap`.  Queries travel in **tenths** (`q10 = 10 · q`,
+integers), the data rows are integers; `d2 q10 (scale10 v)` is 100 × the squared Euclidean distance between the query and row
+`v`.  Casting to an *integer* dtype truncates every coordinate toward zero. -/
+
+def scale10 (p : P3) : P3 := ⟨10 * p.x, 10 * p.y, 10 * p.z⟩
+
+/-- `astype(int)` of a coordinate given in tenths: truncation toward zero (result again in tenths) -/
+def trunc10 (a : Int) : Int := 10 * a.tdiv 10
+
+/-- what the query is cast to: `np.float64`, the dtype of the neuron's own coordinate array, or something else
+(not recognised / another float type: no truncation modelled) -/
+inductive QCast where
+  | float64 | data | other
+deriving DecidableEq, Repr, Inhabited
+
+def castQuery (c : QCast) (dataIsInt : Bool) (q10 : P3) : P3 :=
+  match c with
+  | .data => if dataIsInt then ⟨trunc10 q10.x, trunc10 q10.y, trunc10 q10.z⟩ else q10
+  | _ => q10
+
+/-- `snap` as the source casts: `(row, 100·dist²)` — the distance is measured from the *cast* query -/
+def snapQ (c : QCast) (dataIsInt : Bool) (data : List P3) (q10 : P3) : Option (Nat × Int) :=
+  snapIdx (data.map scale10) (castQuery c dataIsInt q10)
+
+/-- number of rows at minimal distance from the cast query (`> 1`: the kd-tree may return any of them) -/
+def snapQTies (c : QCast) (dataIsInt : Bool) (data : List P3) (q10 : P3) : Nat :=
+  match snapQ c dataIsInt data q10 with
+  | none => 0
+  | some (_, m) => (data.filter fun r => d2 (castQuery c dataIsInt q10) (scale10 r) == m).length
+
+/-- checker for navis' own answer `(ix, num/den)` to the query `q10/10`: `ix` is a row, no row is nearer to the TRUE query, and
+the returned distance `g = num/den` satisfies `|g² − D| ≤ D·2⁻¹² + 2⁻²⁰` for the exact squared distance `D = dd/100`
+(room for float32 coordinates and the inexact decimal query; a truncated query is off by ≥ 0.1) -/
+def checkNearestQ (data : List P3) (q10 : P3) (ix : Nat) (num den : Int) : Bool :=
+  match data[ix]? with
+  | none => false
+  | some v =>
+    (data.all fun r => decide (d2 q10 (scale10 v) ≤ d2 q10 (scale10 r))) && decide (0 < den)
+      && decide ((100 * (num * num) - d2 q10 (scale10 v) * (den * den)).natAbs * 2 ^ 32
+          ≤ ((d2 q10 (scale10 v) * 2 ^ 20 + 100 * 2 ^ 12) * (den * den)).natAbs)
+
 /-! ### Dotprops -/
 
 /-- connector with a position (attached to the nearest point / vertex by `snap`) -/
